@@ -300,7 +300,10 @@ class C05Oracle(Oracle):
             return
         # --- order unknown (transfer) or ambiguous: inert wells stay exact, the rest becomes unknown
         inert = set()
-        zero_adds = {(st[1], st[2]) for st in steps if st[0] == "add" and st[3] == 0}
+        # (also volumes so small that the float sum absorbs them, e.g. 5e-324: the volume does not change but the
+        # fractions are re-mixed and thereby re-rounded)
+        zero_adds = {(st[1], st[2]) for st in steps if st[0] == "add"
+                     and (st[3] == 0 or float(self.ledger.vol[st[1]][st[2]]) + st[3] == float(self.ledger.vol[st[1]][st[2]]))}
         for (li, w) in touched:
             if (li, w) in zero_adds:
                 continue  # adding 0 uL re-mixes (and may re-round) the fractions without changing the volume
